@@ -3,12 +3,8 @@ package props
 import (
 	"fmt"
 	"go/constant"
-	"go/token"
-	"math/big"
 	"sort"
 	"strings"
-
-	"golang.org/x/tools/go/ssa"
 
 	"utilcheck/flow"
 	"utilcheck/pred"
@@ -45,172 +41,6 @@ func runC13(e *Env) {
 	e.S.Floor("C13.format", 4)
 	e.S.Floor("C13.shorten", 8)
 	e.S.Floor("C13.sep", 4)
-}
-
-func ruleC13Shorten(e *Env, units []string) {
-	const rule = "C13.tab"
-	fn := e.Method(rule, "size", "Size", "Shorten")
-	if fn == nil {
-		return
-	}
-	site := flow.FnName(fn)
-	pos := e.Pos(fn)
-	got, _ := sizeUnits(e, "C13.units")
-	su := e.V("size", "shortenUnits")
-	var and, shr *ssa.BinOp
-	for _, b := range fn.Blocks {
-		for _, in := range b.Instrs {
-			bo, ok := in.(*ssa.BinOp)
-			if !ok {
-				continue
-			}
-			if _, isK := bo.Y.(*ssa.Const); !isK {
-				continue
-			}
-			switch bo.Op {
-			case token.AND:
-				if and != nil {
-					e.S.Unk(rule, site, "mask", "more than one masking operation (idioms: one `v & mask` test per step)", pos)
-					return
-				}
-				and = bo
-			case token.SHR:
-				if shr != nil {
-					e.S.Unk(rule, site, "shift", "more than one shift (idioms: one `v >>= k` per step)", pos)
-					return
-				}
-				shr = bo
-			case token.QUO, token.REM:
-				e.S.Unk(rule, site, "division", "division-based shortening is outside the enumerated idioms (mask/shift)", pos)
-				return
-			}
-		}
-	}
-	if and == nil || shr == nil {
-		e.S.Unk(rule, site, "mask/shift", "mask test or shift not found in Shorten", pos)
-		return
-	}
-	mask, _ := flow.ConstInt(and.Y)
-	k, _ := flow.ConstInt(shr.Y)
-	maskB := new(big.Int)
-	if c, ok := and.Y.(*ssa.Const); ok {
-		maskB = bigOf(c.Value)
-	}
-	_ = mask
-	ratio := new(big.Int).Lsh(big.NewInt(1), uint(k))
-	if new(big.Int).Add(maskB, big.NewInt(1)).Cmp(ratio) != 0 {
-		e.S.Bad(rule, site, "mask vs shift", fmt.Sprintf("the remainder test masks with %v but the value is shifted by %d bits (divides by %v): remainder and quotient disagree", maskB, k, ratio), pos, "")
-	} else {
-		e.S.Ok(rule, site, "mask vs shift", fmt.Sprintf("mask %v + 1 = 1<<%d", maskB, k), pos)
-	}
-	if ratio.Cmp(big.NewInt(1024)) != 0 {
-		e.S.Bad(rule, site, "step ratio", fmt.Sprintf("each step divides by %v but consecutive units of shortenUnits differ by 1024", ratio), pos, "")
-	} else {
-		e.S.Ok(rule, site, "step ratio", "each step divides by 1024, the ratio of consecutive units", pos)
-	}
-	// both operate on the same loop-carried value, whose back edge is the shift
-	ph, ok := and.X.(*ssa.Phi)
-	if !ok || shr.X != ssa.Value(ph) {
-		e.S.Bad(rule, site, "same value", "the remainder test and the shift do not operate on the same loop-carried value", pos, "")
-		return
-	}
-	backOK := false
-	for _, ed := range ph.Edges {
-		if ed == ssa.Value(shr) {
-			backOK = true
-		}
-	}
-	if !backOK {
-		e.S.Bad(rule, site, "same value", "the shifted value is not what the next step tests", pos, "")
-	} else {
-		e.S.Ok(rule, site, "same value", "test and shift operate on the loop-carried value; the shift feeds the next step", pos)
-	}
-	// the test is `masked != 0` (or == 0) and the non-zero edge returns (phi, unit-of-index)
-	var iff *ssa.If
-	var cmp *ssa.BinOp
-	for _, r := range *and.Referrers() {
-		if bo, ok := r.(*ssa.BinOp); ok && (bo.Op == token.NEQ || bo.Op == token.EQL) {
-			if z, ok := flow.ConstInt(bo.Y); ok && z == 0 {
-				cmp = bo
-				for _, r2 := range *bo.Referrers() {
-					if i, ok := r2.(*ssa.If); ok {
-						iff = i
-					}
-				}
-			}
-		}
-	}
-	if iff == nil {
-		e.S.Bad(rule, site, "remainder test", "the masked value is not compared with 0 to decide divisibility", pos, "")
-		return
-	}
-	nz, z := iff.Block().Succs[0], iff.Block().Succs[1]
-	if cmp.Op == token.EQL {
-		nz, z = z, nz
-	}
-	ret, _ := nz.Instrs[len(nz.Instrs)-1].(*ssa.Return)
-	if ret == nil || len(ret.Results) != 2 || ret.Results[0] != ssa.Value(ph) {
-		e.S.Bad(rule, site, "in-loop return", "when a remainder exists Shorten does not return the value before shifting", pos, "")
-	} else if !isElemOfGlobalAtLoopIndex(ret.Results[1], su) {
-		e.S.Bad(rule, site, "in-loop return", "the unit returned with the unshifted value is not shortenUnits[current step]", pos, "")
-	} else {
-		e.S.Ok(rule, site, "in-loop return", "remainder ≠ 0 ⇒ returns (value before shifting, shortenUnits[step])", pos)
-	}
-	if !(z == shr.Block() || z.Dominates(shr.Block())) {
-		e.S.Bad(rule, site, "order", "the shift is not confined to the no-remainder edge of the test", pos, "")
-	} else {
-		e.S.Ok(rule, site, "order", "the shift happens only after the remainder test found 0", pos)
-	}
-	// post-loop and zero returns
-	for _, r := range flow.Returns(fn) {
-		if r == ret || len(r.Results) != 2 {
-			continue
-		}
-		u, isConst := flow.ConstString(r.Results[1])
-		if !isConst {
-			e.S.Unk(rule, site, "return", "return with a non-constant unit outside the loop", e.posOf(r))
-			continue
-		}
-		if v, ok := flow.ConstInt(r.Results[0]); ok && v == 0 {
-			if u == "B" {
-				e.S.Ok(rule, site, "zero", "zero ⇒ (0, \"B\")", e.posOf(r))
-			} else {
-				e.S.Bad(rule, site, "zero", "zero is returned with unit "+quote(u)+", documented is 0 B", e.posOf(r), "Size(0)")
-			}
-			continue
-		}
-		if r.Results[0] != ssa.Value(ph) {
-			e.S.Unk(rule, site, "post-loop return", "post-loop return does not return the loop-carried value", e.posOf(r))
-			continue
-		}
-		want := new(big.Int).Lsh(big.NewInt(1), uint(10*len(units)))
-		if got != nil && got[u] != nil && got[u].Cmp(want) == 0 && len(units) > 0 {
-			e.S.Ok(rule, site, "post-loop unit", fmt.Sprintf("after %d steps the unit is %s = 2^%d", len(units), u, 10*len(units)), e.posOf(r))
-		} else {
-			e.S.Bad(rule, site, "post-loop unit", fmt.Sprintf("after %d divisions by 1024 the value is returned with unit %s whose multiplier is %v, not 2^%d", len(units), u, got[u], 10*len(units)), e.posOf(r), "Size(1<<60)")
-		}
-	}
-}
-
-// isElemOfGlobalAtLoopIndex: v is the range value of a loop over the global slice g (load of &(*g)[i] with i the
-// range index).
-func isElemOfGlobalAtLoopIndex(v ssa.Value, g *ssa.Global) bool {
-	u, ok := v.(*ssa.UnOp)
-	if !ok || u.Op != token.MUL {
-		return false
-	}
-	ia, ok := u.X.(*ssa.IndexAddr)
-	if !ok || flow.GlobalLoad(ia.X) != g || g == nil {
-		return false
-	}
-	// index is phi+1 of a 0-based range counter
-	bo, ok := ia.Index.(*ssa.BinOp)
-	if !ok || bo.Op != token.ADD {
-		return false
-	}
-	_, isPhi := bo.X.(*ssa.Phi)
-	k, isK := flow.ConstInt(bo.Y)
-	return isPhi && isK && k == 1
 }
 
 // ruleC13Sep: decision table of appendSeparator.
@@ -288,334 +118,6 @@ func appendedTo(v pred.Val, base string) (string, bool) {
 		}
 	}
 	return "", false
-}
-
-// ruleC13Group: residues mod 3 of the grouping condition in size.DefaultFormatter.
-func ruleC13Group(e *Env) {
-	const rule = "C13.group"
-	fn := e.Fn(rule, "size", "DefaultFormatter")
-	if fn == nil {
-		return
-	}
-	site := flow.FnName(fn)
-	pos := e.Pos(fn)
-	// find the condition: an If in the digit loop whose condition is `expr == const` (or !=) leading to the call of
-	// appendSeparator; expr is built from the loop index i, len(b) and constants with + - %.
-	sep := e.F("size", "appendSeparator")
-	var call *ssa.Call
-	for _, c := range e.C.Calls(fn, func(f *ssa.Function) bool { return f == sep }) {
-		if call != nil {
-			e.S.Unk(rule, site, "separator call", "more than one call to appendSeparator", pos)
-			return
-		}
-		call = c
-	}
-	if call == nil {
-		e.S.Unk(rule, site, "separator call", "no call to appendSeparator found", pos)
-		return
-	}
-	var cond *ssa.BinOp
-	var onTrue bool
-	for d := call.Block(); d != nil && cond == nil; d = d.Idom() {
-		id := d.Idom()
-		if id == nil {
-			break
-		}
-		if iff, ok := id.Instrs[len(id.Instrs)-1].(*ssa.If); ok {
-			if bo, ok := iff.Cond.(*ssa.BinOp); ok && (bo.Op == token.EQL || bo.Op == token.NEQ) {
-				if id.Succs[0] == d || id.Succs[0].Dominates(d) {
-					cond, onTrue = bo, true
-				} else {
-					cond, onTrue = bo, false
-				}
-			}
-		}
-		if cond != nil || len(d.Preds) > 1 {
-			break
-		}
-	}
-	if cond == nil {
-		e.S.Unk(rule, site, "condition", "grouping condition not found (idioms: `expr == k` guarding appendSeparator)", pos)
-		return
-	}
-	var idx ssa.Value // loop index symbol
-	var ln ssa.Value  // len(digits)
-	var eval func(v ssa.Value, i, l int, depth int) (int, bool)
-	eval = func(v ssa.Value, i, l int, depth int) (int, bool) {
-		if depth > 12 {
-			return 0, false
-		}
-		if k, ok := flow.ConstInt(v); ok {
-			return int(k), true
-		}
-		switch x := v.(type) {
-		case *ssa.BinOp:
-			a, ok1 := eval(x.X, i, l, depth+1)
-			b, ok2 := eval(x.Y, i, l, depth+1)
-			if !ok1 || !ok2 {
-				return 0, false
-			}
-			switch x.Op {
-			case token.ADD:
-				return a + b, true
-			case token.SUB:
-				return a - b, true
-			case token.MUL:
-				return a * b, true
-			case token.REM:
-				if b != 3 && b != 1 {
-					return 0, false
-				}
-				if a < 0 {
-					return 0, false // Go's % on negatives: not residue arithmetic
-				}
-				return a % b, true
-			}
-			return 0, false
-		case *ssa.Phi:
-			// range index: phi(-1, phi+1) — the body sees phi+1; a bare phi is outside the idiom
-			return 0, false
-		case *ssa.Call:
-			if bi, ok := x.Call.Value.(*ssa.Builtin); ok && bi.Name() == "len" {
-				if ln == nil {
-					ln = x.Call.Args[0]
-				}
-				if x.Call.Args[0] == ln {
-					return l, true
-				}
-			}
-			return 0, false
-		case *ssa.Convert:
-			return eval(x.X, i, l, depth+1)
-		}
-		return 0, false
-	}
-	// identify the index value: a BinOp ADD(phi, 1) that is the incremented range counter
-	var findIdx func(v ssa.Value, depth int)
-	findIdx = func(v ssa.Value, depth int) {
-		if depth > 12 || idx != nil {
-			return
-		}
-		if bo, ok := v.(*ssa.BinOp); ok {
-			if _, isPhi := bo.X.(*ssa.Phi); isPhi && bo.Op == token.ADD {
-				if k, ok := flow.ConstInt(bo.Y); ok && k == 1 {
-					idx = bo
-					return
-				}
-			}
-			findIdx(bo.X, depth+1)
-			findIdx(bo.Y, depth+1)
-		}
-		if c, ok := v.(*ssa.Convert); ok {
-			findIdx(c.X, depth+1)
-		}
-	}
-	findIdx(cond.X, 0)
-	findIdx(cond.Y, 0)
-	if idx == nil {
-		e.S.Unk(rule, site, "condition", "loop index not identified in the grouping condition", pos)
-		return
-	}
-	// the evaluation treats idx as the symbol i; values are taken on representatives large enough that every
-	// intermediate is non-negative (i, l ≥ 0 and l ≥ i+1), residues are what matters
-	evalTop := func(i, l int) (bool, bool) {
-		var ev2 func(v ssa.Value, depth int) (int, bool)
-		ev2 = func(v ssa.Value, depth int) (int, bool) {
-			if v == idx {
-				return i, true
-			}
-			if bo, ok := v.(*ssa.BinOp); ok && v != idx {
-				a, ok1 := ev2(bo.X, depth+1)
-				b, ok2 := ev2(bo.Y, depth+1)
-				if !ok1 || !ok2 || depth > 12 {
-					return 0, false
-				}
-				switch bo.Op {
-				case token.ADD:
-					return a + b, true
-				case token.SUB:
-					return a - b, true
-				case token.MUL:
-					return a * b, true
-				case token.REM:
-					if b <= 0 || a < 0 {
-						return 0, false
-					}
-					return a % b, true
-				}
-				return 0, false
-			}
-			return eval(v, i, l, depth)
-		}
-		a, ok1 := ev2(cond.X, 0)
-		b, ok2 := ev2(cond.Y, 0)
-		if !ok1 || !ok2 {
-			return false, false
-		}
-		r := a == b
-		if cond.Op == token.NEQ {
-			r = !r
-		}
-		if !onTrue {
-			r = !r
-		}
-		return r, true
-	}
-	// residue classes: l mod 3 ∈ {0,1,2}, i mod 3 ∈ {0,1,2}; two representatives each to make sure only residues matter
-	for lr := 0; lr < 3; lr++ {
-		for ir := 0; ir < 3; ir++ {
-			construct := fmt.Sprintf("len≡%d,i≡%d (mod 3)", lr, ir)
-			var results []bool
-			undec := false
-			for _, rep := range [][2]int{{ir, lr + 3*((ir+3)/3+1)}, {ir + 3, lr + 3*((ir+6)/3+2)}, {ir + 6, lr + 30}} {
-				i, l := rep[0], rep[1]
-				if l <= i {
-					l += 3 * ((i-l)/3 + 1)
-				}
-				r, ok := evalTop(i, l)
-				if !ok {
-					undec = true
-					break
-				}
-				// oracle: separator after digit i iff the number of digits to its right, l-1-i, is a multiple of 3
-				want := (l-1-i)%3 == 0
-				results = append(results, r == want)
-			}
-			if undec {
-				e.S.Unk(rule, site, construct, "grouping condition uses operations outside + - * % const on (index, len)", pos)
-				continue
-			}
-			all := true
-			for _, r := range results {
-				all = all && r
-			}
-			if all {
-				e.S.Ok(rule, site, construct, "separator ⇔ the digits to the right form whole groups of three", pos)
-			} else {
-				e.S.Bad(rule, site, construct, "for this residue class the separator is not placed exactly where a multiple of three digits remains to the right", pos, "")
-			}
-		}
-	}
-}
-
-// ruleC13Emit: the formatter writes the decimal digits of the shortened value in order, then the unit, nothing else.
-func ruleC13Emit(e *Env) {
-	const rule = "C13.emit"
-	fn := e.Fn(rule, "size", "DefaultFormatter")
-	sh := e.P.Method("size", "Size", "Shorten")
-	if fn == nil || sh == nil {
-		return
-	}
-	site := flow.FnName(fn)
-	pos := e.Pos(fn)
-	var shCall *ssa.Call
-	for _, c := range e.C.Calls(fn, func(f *ssa.Function) bool { return f == sh }) {
-		shCall = c
-	}
-	if shCall == nil || flow.Strip(shCall.Call.Args[0]) != ssa.Value(fn.Params[1]) {
-		e.S.Bad(rule, site, "shorten", "the formatter does not shorten the size it is given", pos, "")
-		return
-	}
-	var val, unit ssa.Value
-	for _, r := range *shCall.Referrers() {
-		if ex, ok := r.(*ssa.Extract); ok {
-			if ex.Index == 0 {
-				val = ex
-			} else {
-				unit = ex
-			}
-		}
-	}
-	var digits ssa.Value
-	for _, c := range e.C.Calls(fn, func(f *ssa.Function) bool {
-		return f.String() == "strconv.FormatUint" || f.String() == "strconv.AppendUint" || f.String() == "strconv.Itoa" || f.String() == "strconv.FormatInt"
-	}) {
-		name := c.Call.StaticCallee().String()
-		ai := 0
-		if name == "strconv.AppendUint" {
-			ai = 1
-		}
-		if c.Call.Args[ai] != val {
-			e.S.Bad(rule, site, "digits", "the decimal digits are not those of the shortened value", e.posOf(c), "")
-			return
-		}
-		if name != "strconv.Itoa" {
-			if b, ok := flow.ConstInt(c.Call.Args[ai+1]); !ok || b != 10 {
-				e.S.Bad(rule, site, "digits", "the value is not printed in base 10", e.posOf(c), "")
-				return
-			}
-		}
-		digits = c
-	}
-	if digits == nil {
-		e.S.Unk(rule, site, "digits", "no strconv decimal conversion of the shortened value found", pos)
-		return
-	}
-	e.S.Ok(rule, site, "digits", "digits = decimal text of Shorten's value", pos)
-	// appends: inside the digit loop one element of the digit text at the loop index; after it the unit
-	var loopAppend, unitAppend *ssa.Call
-	others := 0
-	for _, b := range fn.Blocks {
-		for _, in := range b.Instrs {
-			call, ok := in.(*ssa.Call)
-			if !ok {
-				continue
-			}
-			bi, ok := call.Call.Value.(*ssa.Builtin)
-			if !ok || bi.Name() != "append" {
-				continue
-			}
-			data := call.Call.Args[1]
-			switch {
-			case data == unit:
-				unitAppend = call
-			case isSingleElemOf(data, digits):
-				loopAppend = call
-			default:
-				others++
-			}
-		}
-	}
-	switch {
-	case loopAppend == nil:
-		e.S.Bad(rule, site, "digit loop", "no append of the digit at the loop index: digits are not copied one by one in order", pos, "")
-	case others > 0:
-		e.S.Bad(rule, site, "digit loop", fmt.Sprintf("%d further append(s) in the formatter besides digits, separators (appendSeparator) and the unit", others), pos, "")
-	default:
-		e.S.Ok(rule, site, "digit loop", "each digit of the text is appended once, in order (range over the digit text)", e.posOf(loopAppend))
-	}
-	if unitAppend == nil {
-		e.S.Bad(rule, site, "unit", "the unit returned by Shorten is not appended", pos, "")
-		return
-	}
-	okRet := false
-	for _, r := range flow.Returns(fn) {
-		if len(r.Results) == 2 && r.Results[0] == ssa.Value(unitAppend) && flow.IsNilConst(r.Results[1]) {
-			okRet = true
-		}
-	}
-	if okRet && loopAppend != nil && !(unitAppend.Block() == loopAppend.Block()) {
-		e.S.Ok(rule, site, "unit", "the unit is appended after the digit loop and that buffer is returned", e.posOf(unitAppend))
-	} else {
-		e.S.Bad(rule, site, "unit", "the buffer returned is not digits followed by the unit", e.posOf(unitAppend), "")
-	}
-}
-
-// isSingleElemOf: v is the one-element variadic slice holding text[index] of the converted digit text.
-func isSingleElemOf(v ssa.Value, text ssa.Value) bool {
-	elems := flow.Varargs(v)
-	if len(elems) != 1 || elems[0] == nil {
-		return false
-	}
-	ld, ok := elems[0].(*ssa.UnOp)
-	if !ok {
-		return false
-	}
-	ia, ok := ld.X.(*ssa.IndexAddr)
-	if !ok {
-		return false
-	}
-	return flow.Strip(ia.X) == text
 }
 
 // ruleC13Methods: String / PrettyString / PrettyHTML render through the package-level Formatter with the documented
